@@ -21,15 +21,19 @@ logged operations (in the order of their writes) and satisfies the invariants; e
 performed within the clock interval `[lockAt, writeAt]` during which its thread held the model lock, the
 instant it stamps with (if any) was read in that interval, and the intervals of different operations do
 not overlap (each lock comes after the previous write). -/
-theorem C19_stamp_schedules (p : Mode) (s0 : St) (h0 : Inv p s0) (progs : Nat → List Op) (evs : List Ev) :
+theorem C19_stamp_schedules (p : Mode) (s0 : St) (h0 : Inv p s0) (progs : Nat → List Op) (evs : List Ev)
+    (ht : ∀ t, ∀ op ∈ progs t, op.Tame) :
     let c := trun (tinit s0 progs) evs
     c.st = run s0 (c.log.map Entry.op) ∧ Inv p c.st ∧
     (∀ e ∈ c.log, e.lockAt ≤ e.writeAt ∧ e.writeAt ≤ c.clock ∧
       ∀ n, e.op.now? = some n → e.lockAt ≤ n ∧ n ≤ e.writeAt) ∧
     c.log.Pairwise (fun a b => a.writeAt ≤ b.lockAt) := by
-  have hi := trun_inv (tinv_init s0 progs) evs
+  have hi := trun_inv Op.tame_withNow (tinv_init Op.Tame s0 progs ht) evs
   refine ⟨hi.serial, ?_, ?_, hi.ord⟩
-  · rw [hi.serial]; exact run_inv h0 _
+  · rw [hi.serial]
+    exact run_inv h0 _ (fun op ho => by
+      obtain ⟨e, he, rfl⟩ := List.mem_map.mp ho
+      exact hi.logP e he)
   · intro e he
     exact ⟨(hi.past e he).1, (hi.past e he).2, hi.stamps e he⟩
 
@@ -38,7 +42,7 @@ performed: of two logged operations that stamp, the later one stamps with a late
 theorem C19_stamp_monotone (s0 : St) (progs : Nat → List Op) (evs : List Ev) :
     (trun (tinit s0 progs) evs).log.Pairwise
       (fun a b => ∀ na nb, a.op.now? = some na → b.op.now? = some nb → na ≤ nb) := by
-  have hi := trun_inv (tinv_init s0 progs) evs
+  have hi := trun_inv (P := fun _ => True) (fun _ _ h => h) (tinv_init _ s0 progs (fun _ _ _ => True.intro)) evs
   refine List.Pairwise.imp_of_mem ?_ hi.ord
   intro a b ha hb hab na nb hna hnb
   exact Nat.le_trans (hi.stamps a ha na hna).2 (Nat.le_trans hab (hi.stamps b hb nb hnb).1)
@@ -57,7 +61,7 @@ theorem C19_stamp_switch (s0 : St) (progs : Nat → List Op) (evs : List Ev)
     let c := trun (tinit s0 progs) evs
     c.st.active.id = id ∧ c.st.active.start = some n ∧
     e.lockAt ≤ n ∧ n ≤ e.writeAt ∧ e.writeAt ≤ c.clock ∧ ∀ a ∈ l, a.writeAt ≤ n := by
-  have hi := trun_inv (tinv_init s0 progs) evs
+  have hi := trun_inv (P := fun _ => True) (fun _ _ h => h) (tinv_init _ s0 progs (fun _ _ _ => True.intro)) evs
   have he : e ∈ (trun (tinit s0 progs) evs).log := by rw [hlog]; simp
   have hnow : e.op.now? = some n := by
     rcases hop with h | ⟨h, _⟩ <;> rw [h] <;> rfl
@@ -79,6 +83,7 @@ theorem C19_stamp_switch (s0 : St) (progs : Nat → List Op) (evs : List Ev)
 is a clear, `nm` is the (unique) normal mode and another mode was active, then `nm` is active and its start time
 is a clock reading taken inside the lock, after every earlier operation had completed and not after the switch. -/
 theorem C19_stamp_clear (p : Mode) (s0 : St) (h0 : Inv p s0) (progs : Nat → List Op) (evs : List Ev)
+    (ht : ∀ t, ∀ op ∈ progs t, op.Tame)
     (l : List Entry) (e : Entry) (n : Nat) (nm : Mode)
     (hlog : (trun (tinit s0 progs) evs).log = l ++ [e])
     (hop : e.op = .clear n ∨ e.op = .sClear n)
@@ -87,12 +92,14 @@ theorem C19_stamp_clear (p : Mode) (s0 : St) (h0 : Inv p s0) (progs : Nat → Li
     let c := trun (tinit s0 progs) evs
     c.st.active.id = nm.id ∧ c.st.active.start = some n ∧
     e.lockAt ≤ n ∧ n ≤ e.writeAt ∧ e.writeAt ≤ c.clock ∧ ∀ a ∈ l, a.writeAt ≤ n := by
-  have hi := trun_inv (tinv_init s0 progs) evs
+  have hi := trun_inv Op.tame_withNow (tinv_init Op.Tame s0 progs ht) evs
   have he : e ∈ (trun (tinit s0 progs) evs).log := by rw [hlog]; simp
   have hnow : e.op.now? = some n := by
     rcases hop with h | h <;> rw [h] <;> rfl
   have hst := hi.stamps e he n hnow
-  have hinv : Inv p (run s0 (l.map Entry.op)) := run_inv h0 _
+  have hinv : Inv p (run s0 (l.map Entry.op)) := run_inv h0 _ (fun op ho => by
+    obtain ⟨a, ha, rfl⟩ := List.mem_map.mp ho
+    exact hi.logP a (by rw [hlog]; simp [ha]))
   have hcl := C19_clear p _ hinv n
   have hserial : (trun (tinit s0 progs) evs).st = (step (run s0 (l.map Entry.op)) (.clear n)).1 := by
     rw [hi.serial, hlog, List.map_append, run_append]
@@ -127,8 +134,8 @@ theorem C19_rejected_unchanged (s : St) (op : Op) (h : (step s op).2.isOk = fals
 satisfying the invariant: it is refused (AlreadyExists, nothing changes) when it would write `normal = true`
 while some mode is normal; when it succeeds it stores exactly one new record, under the id of the request
 whatever the update mask says (fix 2b5cf2c), publishes it as ADD, and a new normal mode is the only one. -/
-theorem C19_upsert (p : Mode) (s : St) (hi : Inv p s) (m : Mode) (mask : Option Mask) (w : WOpts)
-    (habs : find s m.id = none) :
+theorem C19_upsert (p : Mode) (s : St) (hi : Inv p s) (m : Mode) (mask : Option Mask) (w : WOpts) (ht : w.Tame)
+    (hne : m.id ≠ "") (habs : find s m.id = none) :
     ((m.normal = true ∧ writesNormal mask = true ∧ ∃ x ∈ s.modes, x.normal = true) →
       step s (.update m mask w) = (s, .err .alreadyExists)) ∧
     (w.createIfAbsent = false → (step s (.update m mask w)).2.isOk = false) ∧
@@ -144,40 +151,54 @@ theorem C19_upsert (p : Mode) (s : St) (hi : Inv p s) (m : Mode) (mask : Option 
       rw [hnm]
       simp only [bne_iff_ne, ne_eq]
       exact find_none habs x hx
-    simp [step, updateMode, hn, hw, hother]
+    simp [step, updateMode, hn, hw, hother, hne]
   · intro hc
-    simp only [step, updateMode, habs, hc]
+    simp only [step, updateMode, habs, hc, hne, if_false]
     repeat' split
     all_goals simp_all [Res.isOk]
   · intro new hnew
-    have hinv := step_inv hi (.update m mask w)
-    simp only [step] at hnew hinv ⊢
+    have hinv := step_inv hi (.update m mask w) ht
+    have hid := (written_tame Mode.blank m mask w ht).1
+    simp only [step, hne, if_false] at hnew hinv ⊢
     by_cases hg : (m.normal = true ∧ writesNormal mask = true ∧ otherNormal s m.id = true)
     · simp [updateMode, hg] at hnew
     · by_cases hv : maskInvalid mask = true
       · simp [updateMode, hg, hv] at hnew
-      · by_cases hc : w.createIfAbsent = true
-        · by_cases he : expectedFails w.expected Mode.blank = true
-          · simp [updateMode, hg, hv, habs, hc, he] at hnew
-          · have hstep : updateMode s m mask w =
-                ({ s with modes := insertMode (mergeMode Mode.blank m (maskWithId mask)) s.modes },
-                  .ok (some (mergeMode Mode.blank m (maskWithId mask)))) := by
-              simp [updateMode, hg, hv, habs, hc, he]
-            rw [hstep] at hnew hinv
-            have hnew' : mergeMode Mode.blank m (maskWithId mask) = new := by simpa using hnew
-            refine ⟨by rw [← hnew']; exact mergeMode_withId_id _ _ _, by rw [hstep, hnew'],
-              by simp [modeEvents, emitUpdate, hstep, habs, hnew'], ?_⟩
-            intro hnn x hx
-            cases hxn : x.normal with
-            | false => rfl
-            | true =>
-              rw [hnew'] at hinv
-              have hxin : x ∈ insertMode new s.modes := (mem_insertMode _ _ _).mpr (Or.inr hx)
-              have hnin : new ∈ insertMode new s.modes := (mem_insertMode _ _ _).mpr (Or.inl rfl)
-              have := hinv.i1 x hxin new hnin hxn hnn
-              have hid : x.id = m.id := by rw [this, ← hnew']; exact mergeMode_withId_id _ _ _
-              exact absurd hid (find_none habs x hx)
-        · simp [updateMode, hg, hv, habs, hc] at hnew
+      · by_cases hrs : maskInvalid w.reset = true
+        · simp [updateMode, hg, hv, hrs] at hnew
+        · by_cases hc : w.createIfAbsent = true
+          · by_cases he : expectedFails w.expected Mode.blank = true
+            · simp [updateMode, hg, hv, hrs, habs, hc, he] at hnew
+            · cases hck : checkFails w Mode.blank with
+              | some c => simp [updateMode, hg, hv, hrs, habs, hc, he, hck] at hnew
+              | none =>
+                have hstep : updateMode s m mask w =
+                    ({ s with modes := insertMode (written Mode.blank m mask w) s.modes },
+                      .ok (some (written Mode.blank m mask w))) := by
+                  simp [updateMode, hg, hv, hrs, habs, hc, he, hck, insertAt_of_id hid]
+                rw [hstep] at hnew hinv
+                have hnew' : written Mode.blank m mask w = new := by simpa using hnew
+                refine ⟨by rw [← hnew']; exact hid, by rw [hstep, hnew'],
+                  by simp [modeEvents, emitUpdate, hstep, habs, hnew', hne], ?_⟩
+                intro hnn x hx
+                cases hxn : x.normal with
+                | false => rfl
+                | true =>
+                  rw [hnew'] at hinv
+                  have hxin : x ∈ insertMode new s.modes := (mem_insertMode _ _ _).mpr (Or.inr hx)
+                  have hnin : new ∈ insertMode new s.modes := (mem_insertMode _ _ _).mpr (Or.inl rfl)
+                  have := hinv.i1 x hxin new hnin hxn hnn
+                  have hid' : x.id = m.id := by rw [this, ← hnew']; exact hid
+                  exact absurd hid' (find_none habs x hx)
+          · simp [updateMode, hg, hv, hrs, habs, hc] at hnew
+
+/-- **C19_update_empty_id.** `UpdateMode` of the empty id names no mode: NotFound, nothing changes, whatever the
+options (fix eb62186: with `WithCreateIfAbsent` it used to create a mode under the id ""); the UpdateMode RPC
+answers InvalidArgument. -/
+theorem C19_update_empty_id (s : St) (m : Mode) (mask : Option Mask) (w : WOpts) (h : m.id = "") :
+    step s (.update m mask w) = (s, .err .notFound) ∧ step s (.sUpdate m mask) = (s, .err .invalidArgument) ∧
+    modeEvents s (.update m mask w) = [] := by
+  simp [step, modeEvents, h]
 
 /-- **C19_inv_checked.** Initial-record options: the construction `NewModel(WithInitialMode(modes…),
 WithInitialActiveMode(active))` panics unless every initial mode has an id and the ids are distinct
@@ -185,7 +206,8 @@ WithInitialActiveMode(active))` panics unless every initial mode has an id and t
 initial mode is normal — then the invariants hold after ANY operation sequence (`C19_inv` with the
 distinct-ids half of `InitOk` discharged by the code's own check). -/
 theorem C19_inv_checked (modes : List Mode) (active : Mode) (s0 : St) (h : St.config? modes active = some s0)
-    (h1 : ∀ x ∈ modes, ∀ y ∈ modes, x.normal = true → y.normal = true → x = y) (ops : List Op) :
+    (h1 : ∀ x ∈ modes, ∀ y ∈ modes, x.normal = true → y.normal = true → x = y) (ops : List Op)
+    (ht : ∀ op ∈ ops, op.Tame) :
     s0 = St.config modes active ∧ (∀ x ∈ modes, x.id ≠ "") ∧ (modes.map (·.id)).Nodup ∧
     Inv active (run s0 ops) ∧ ((run s0 ops).modes.filter (·.normal)).length ≤ 1 := by
   unfold St.config? at h
@@ -193,7 +215,7 @@ theorem C19_inv_checked (modes : List Mode) (active : Mode) (s0 : St) (h : St.co
   · simp only [hok, if_true, Option.some.injEq] at h
     subst h
     simp only [configOk, Bool.and_eq_true, List.all_eq_true, bne_iff_ne, ne_eq, decide_eq_true_eq] at hok
-    have hinv := run_inv (inv_config modes active ⟨hok.2, h1⟩) ops
+    have hinv := run_inv (inv_config modes active ⟨hok.2, h1⟩) ops ht
     exact ⟨rfl, hok.1, hok.2, hinv, normal_count_le_one hinv⟩
   · simp [hok] at h
 
